@@ -124,7 +124,7 @@ fn stage(i: &Input, c: &mut Case) -> Result<(), String> {
                         match &e {
                             ErrK::Eof { .. } => {}
                             ErrK::Read { kind, msg } => {
-                                if !(inject && *kind == std::io::ErrorKind::Other && msg.contains(&format!("inj-{}", inj_k))) {
+                                if !(inject && *kind == inj_kind(inj_k) && msg.contains(&format!("inj-{}", inj_k))) {
                                     result = Err(format!("try_recover() returned a read error that the source never produced: {:?}", e));
                                     break;
                                 }
@@ -182,7 +182,7 @@ fn stage(i: &Input, c: &mut Case) -> Result<(), String> {
                         log.push(format!("ERR {}", e.short()));
                     }
                     if let ErrK::Read { kind, msg } = &e {
-                        if !(inject && *kind == std::io::ErrorKind::Other && msg.contains(&format!("inj-{}", inj_k))) {
+                        if !(inject && *kind == inj_kind(inj_k) && msg.contains(&format!("inj-{}", inj_k))) {
                             result = Err(format!("next() returned a read error that the source never produced: {:?}", e));
                             break;
                         }
